@@ -2244,6 +2244,12 @@ def shrink(case):
             yield dict(case, steps=steps[:i] + steps[i + 1:])
         if case.get("api") == "rails" and case["kind"] == "v2rt":
             yield dict(case, api="runtime")
+        for si, st in enumerate(steps):  # the body of a flow added at run time (1.0 `dyn` / 2.x `add`), line by line
+            if st[0] in ("dyn", "add") and isinstance(st[-1], str):
+                bl = st[-1].split("\n")
+                for i in range(1, len(bl)):
+                    if bl[i].strip():
+                        yield dict(case, steps=steps[:si] + [st[:-1] + ["\n".join(bl[:i] + bl[i + 1:])]] + steps[si + 1:])
         lines = case["src"].split("\n")
         gate = next((i for i, l in enumerate(lines) if "NeverSent" in l), None)
         if case["kind"] == "v2rt" and gate is None:
